@@ -93,7 +93,7 @@ static void on_alarm(int)
 // on the pattern (and on nothing else).
 static void __attribute__((noinline)) poison_stack(int v)
 {
-    volatile char buf[768 * 1024];
+    volatile char buf[512 * 1024];
     for (size_t i = 0; i < sizeof buf; i += 1)
         buf[i] = (char)v;
 }
